@@ -32,13 +32,18 @@ Ltac unfold_model :=
 Theorem gen_bbox_init_eq : forall a b c d, gen_bbox_init a b c d = box_init (mkbox a b c d).
 Proof. intros. unfold_gen. unfold_model. if_split; z_leaf. Qed.
 
+Lemma mkbox_eq a b c d a' b' c' d' : a = a' -> b = b' -> c = c' -> d = d' -> mkbox a b c d = mkbox a' b' c' d'.
+Proof. intros; subst; reflexivity. Qed.
+Lemma res4_eta (r : res (Z * Z * Z * Z)) :
+  match r with Raise e => Raise e | Ok (a, b, c, d) => Ok (a, b, c, d) end = r.
+Proof. destruct r as [[[[? ?] ?] ?]|]; reflexivity. Qed.
+
 (* ---------- from_float ---------- *)
 Theorem gen_from_float_eq : forall xmin xmax ymin ymax,
   gen_from_float xmin xmax ymin ymax = box_init (from_float xmin xmax ymin ymax).
 Proof.
-  intros. unfold gen_from_float. cbv zeta. rewrite gen_bbox_init_eq.
-  unfold from_float, half.
-  match goal with |- context [box_init ?b] => destruct (box_init b) as [[[[? ?] ?] ?]|] eqn:E end; reflexivity.
+  intros. unfold gen_from_float. cbv zeta. rewrite gen_bbox_init_eq, res4_eta.
+  apply (f_equal box_init). unfold from_float, half. apply mkbox_eq; qz_scalar.
 Qed.
 
 Lemma from_float_valid xmin xmax ymin ymax :
@@ -95,9 +100,8 @@ Theorem gen_bbox_union_eq : forall a b,
   gen_bbox_union (ixmin a) (ixmax a) (iymin a) (iymax a) (ixmin b) (ixmax b) (iymin b) (iymax b)
   = box_init (box_union a b).
 Proof.
-  intros. unfold gen_bbox_union. cbv zeta. rewrite gen_bbox_init_eq.
-  unfold box_union.
-  match goal with |- context [box_init ?x] => destruct (box_init x) as [[[[? ?] ?] ?]|] eqn:E end; reflexivity.
+  intros. unfold gen_bbox_union. cbv zeta. rewrite gen_bbox_init_eq, res4_eta.
+  apply (f_equal box_init). unfold box_union. apply mkbox_eq; lia.
 Qed.
 
 Theorem gen_bbox_union_ok : forall a b, box_valid a = true -> box_valid b = true ->
@@ -118,15 +122,15 @@ Qed.
 Theorem gen_bbox_or_eq : forall a b,
   gen_bbox_or (ixmin a) (ixmax a) (iymin a) (iymax a) (ixmin b) (ixmax b) (iymin b) (iymax b)
   = box_init (box_union a b).
-Proof.
-  intros. unfold gen_bbox_or. rewrite gen_bbox_union_eq.
-  destruct (box_init (box_union a b)) as [[[[? ?] ?] ?]|]; reflexivity.
-Qed.
+Proof. intros. unfold gen_bbox_or. rewrite gen_bbox_union_eq. apply res4_eta. Qed.
 
 Theorem gen_bbox_and_eq : forall a b,
   gen_bbox_and (ixmin a) (ixmax a) (iymin a) (iymax a) (ixmin b) (ixmax b) (iymin b) (iymax b)
   = Ok (option_map ofbox (box_inter a b)).
-Proof. intros. unfold gen_bbox_and. rewrite gen_bbox_intersection_eq. reflexivity. Qed.
+Proof.
+  intros. unfold gen_bbox_and. rewrite gen_bbox_intersection_eq.
+  destruct (box_inter a b) as [[? ? ? ?]|]; reflexivity.
+Qed.
 
 (* ---------- PixelAperture._translate_mask_mode ---------- *)
 Open Scope string_scope.
@@ -257,6 +261,8 @@ Proof.
 Qed.
 
 Print Assumptions gen_bbox_init_eq.
+Print Assumptions mkbox_eq.
+Print Assumptions res4_eta.
 Print Assumptions gen_from_float_eq.
 Print Assumptions gen_from_float_ok.
 Print Assumptions gen_bbox_shape_eq.
